@@ -553,7 +553,7 @@ func (bs *blockState) exec(ins ssa.Instruction) {
 			if b, ok := v.(*BytesRef); ok {
 				vs[i] = ex.define("ret", bs.matBytes(b, pos))
 			}
-			if p, ok := v.(*Ptr); ok && p.cell != nil && len(p.path) == 0 && fr.depth > 0 {
+			if p, ok := v.(*Ptr); ok && p.cell != nil && len(p.path) == 0 {
 				if pt, ok := x.Results[i].Type().Underlying().(*types.Pointer); ok {
 					if _, isStruct := pt.Elem().Underlying().(*types.Struct); isStruct {
 						if t, ok := bs.load(p, pos).(Term); ok {
